@@ -38,7 +38,7 @@ theorem run_map (m : ExprMap) (h : ExprOK m) (n : Nat) (md : Module) (hcore : (r
   unfold run mapModule at *
   simp only at *
   rw [collect_mapBody m h]
-  rcases (goodM_all m h (collect md.body) n).2 St.init md.body with hs | hs
+  rcases (goodM_all (o := false) m h (collect md.body) n).2 St.init md.body with hs | hs
   · rw [hs] at hcore; simp [observe] at hcore
   · rw [hs]
 
@@ -150,6 +150,45 @@ theorem fold_notTuple (t : PrecTable) (sp : Spacing) (orc : Oracle) (e : Expr) (
     rcases foldBinOp_shape t sp orc (foldE t sp orc l) op (foldE t sp orc r) with h1 | ⟨c, h1⟩ | ⟨c, h1⟩ <;> rw [h1] <;> rfl
   all_goals (simp only [foldE]; rfl)
 
+theorem isDebugTest_compare_left (l : Expr) (ops : List CmpOpK) (cs : List Expr) (h : isDebugTest (.compare l ops cs) = true) :
+    ∃ c, l = .name "__debug__" c := by
+  unfold isDebugTest at h
+  split at h
+  · rename_i heq; cases heq
+  · rename_i heq; injection heq with h1 _ _; exact ⟨_, h1⟩
+  · rename_i heq; injection heq with h1 _ _; exact ⟨_, h1⟩
+  · rename_i heq; injection heq with h1 _ _; exact ⟨_, h1⟩
+  · simp at h
+
+theorem evalE_debug_compare (s : St) (c : Ctx) (ops : List CmpOpK) (cs : List Expr) :
+    evalE s (.compare (.name "__debug__" c) ops cs) = none := by
+  match ops, cs with
+  | [op], [r] => simp [evalE]
+  | [], _ => simp [evalE]
+  | [_], [] => simp [evalE]
+  | [_], _ :: _ :: _ => simp [evalE]
+  | _ :: _ :: _, _ => simp [evalE]
+
+theorem fold_debugKeep (t : PrecTable) (sp : Spacing) (orc : Oracle) (e : Expr) (h : isDebugTest e = true) :
+    isDebugTest (foldE t sp orc e) = true := by
+  unfold isDebugTest at h
+  split at h <;> first | (simp [foldE, foldL, isDebugTest]; done) | (simp at h)
+
+theorem fold_debugNew (t : PrecTable) (sp : Spacing) (orc : Oracle) (s : St) (e : Expr)
+    (h1 : isDebugTest e = false) (h2 : isDebugTest (foldE t sp orc e) = true) : evalE s e = none := by
+  cases e
+  case name x c => simp only [foldE] at h2; rw [h1] at h2; cases h2
+  case compare l ops cs =>
+    simp only [foldE] at h2
+    obtain ⟨c, hl⟩ := isDebugTest_compare_left _ _ _ h2
+    have hn : nameOf l = some ("__debug__", c) := by rw [← fold_nameOf_eq t sp orc l, hl]; rfl
+    rw [nameOf_some l _ _ hn]
+    exact evalE_debug_compare s c ops cs
+  case binOp l op r =>
+    simp only [foldE] at h2
+    rcases foldBinOp_shape t sp orc (foldE t sp orc l) op (foldE t sp orc r) with h | ⟨c, h⟩ | ⟨c, h⟩ <;> rw [h] at h2 <;> simp [isDebugTest] at h2
+  all_goals (simp only [foldE] at h2; simp [isDebugTest] at h2)
+
 def foldMap (t : PrecTable) (sp : Spacing) (orc : Oracle) : ExprMap := ⟨foldE t sp orc, foldArguments t sp orc, false⟩
 
 theorem fold_exprOK (t : PrecTable) (sp : Spacing) (orc : Oracle) : ExprOK (foldMap t sp orc) where
@@ -161,6 +200,8 @@ theorem fold_exprOK (t : PrecTable) (sp : Spacing) (orc : Oracle) : ExprOK (fold
   notName := fun e h => fold_nameOf t sp orc e h
   params := fun a => fold_params t sp orc a
   handlerTy := fun ty => excKind_map _ (fold_nameOf_eq t sp orc) (fun es => by simp [foldE, foldL_eq_map]) (fold_notTuple t sp orc) ty
+  debugKeep := fold_debugKeep t sp orc
+  debugNew := fun s e h1 h2 => fold_debugNew t sp orc s e h1 h2
 
 /-- constant folding of a whole module refines its PyCore behaviour, for any oracle -/
 theorem run_foldModule (t : PrecTable) (sp : Spacing) (orc : Oracle) (n : Nat) (md : Module)
@@ -238,6 +279,24 @@ theorem pos_notTuple (e : Expr) (h : isTuple e = false) : isTuple (ExprMap.mapE 
   all_goals (simp only [ExprMap.mapE, id]; rfl)
 
 open PMV.Transforms in
+theorem pos_debugKeep (e : Expr) (h : isDebugTest e = true) : isDebugTest (ExprMap.mapE id mergePosonly e) = true := by
+  unfold isDebugTest at h
+  split at h <;> first | (simp [ExprMap.mapE, ExprMap.mapL, isDebugTest]; done) | (simp at h)
+
+open PMV.Transforms in
+theorem pos_debugNew (s : St) (e : Expr) (h1 : isDebugTest e = false)
+    (h2 : isDebugTest (ExprMap.mapE id mergePosonly e) = true) : evalE s e = none := by
+  cases e
+  case name x c => simp only [ExprMap.mapE, id] at h2; rw [h1] at h2; cases h2
+  case compare l ops cs =>
+    simp only [ExprMap.mapE, id] at h2
+    obtain ⟨c, hl⟩ := isDebugTest_compare_left _ _ _ h2
+    have hn : nameOf l = some ("__debug__", c) := by rw [← pos_nameOf_eq l, hl]; rfl
+    rw [nameOf_some l _ _ hn]
+    exact evalE_debug_compare s c ops cs
+  all_goals (simp only [ExprMap.mapE, id] at h2; simp [isDebugTest] at h2)
+
+open PMV.Transforms in
 theorem pos_exprOK : ExprOK posMap where
   evalOK := fun s e h => homo_evalE _ _ posE_homo s e h
   name := fun x c => by simp [posMap, ExprMap.mapE]
@@ -247,6 +306,8 @@ theorem pos_exprOK : ExprOK posMap where
   notName := fun e h => pos_nameOf e h
   params := fun a => pos_params a
   handlerTy := fun ty => excKind_map _ pos_nameOf_eq (fun es => by simp [ExprMap.mapE, posL_eq_map]) pos_notTuple ty
+  debugKeep := pos_debugKeep
+  debugNew := pos_debugNew
 
 /-- positional-only conversion refines the PyCore behaviour of a whole module -/
 theorem run_removePosargs (n : Nat) (md : Module) (hcore : (run n md).ending ≠ "stuck") :
